@@ -36,21 +36,20 @@ def cases(tier):
         cs.append(mk(2, b))
         cs.append(mk(4, b))
     # decimal: real digit generation end to end on a magnitude slice (the contract form of the decimal round trip needs the
-    # solver to equate two 20-step multiply-by-ten chains and did not finish in 900 s; it is in the thorough tier)
+    # solver to equate two 20-step multiply-by-ten chains: no verdict in 2400 s, not a registered case)
     cs.append(mk(1, stub=False, mag=999 if q else 99999, tag="-real", timeout=900 if q else 3000))
     cs.append(mk(3, stub=False, mag=999 if q else 99999, tag="-real", timeout=900 if q else 3000))
     cs.append(mk(2, 10, stub=False, mag=999 if q else 99999, tag="-real", timeout=900 if q else 3000))
-    cs.append(mk(8, stub=False, mag=9 if q else 999, unwind=16, tag="-real", timeout=900 if q else 3000))
+    cs.append(mk(8, stub=False, mag=9 if q else 99, unwind=16, tag="-real", timeout=900 if q else 3000))
     if not q:
         cs.append(mk(9, stub=False, unwind=16, timeout=3000))
-        cs += [mk(1, timeout=6000), mk(3, timeout=6000), mk(2, 10, timeout=6000), mk(4, 10, timeout=6000)]
         cs.append(mk(2, 16, stub=False, tag="-real", timeout=3000))
     return cs
 
 
 META = dict(
     bounds=dict(integers="every value of both widths in bases 2/8/16 with the digit generator replaced by its C14 contract; decimal: real digit "
-                "generation end to end on a magnitude slice (quick), plus all 16-bit values, 32-bit hex and the decimal contract form (thorough)", text="all 7-bit strings of length 0..5 (quick) / 0..6 (thorough) "
+                "generation end to end on a magnitude slice (quick), plus all 16-bit values and 32-bit hex with real digits (thorough)", text="all 7-bit strings of length 0..5 (quick) / 0..6 (thorough) "
                 "including both quote characters", blocks="all byte strings of length 0..12", arrays="3 ASCII int32 elements"),
     outside=["floats and doubles (digits come from libc printf / the FP digit loop, see C16)", "texts longer than 6 and blocks longer than 12 bytes",
              "base-10 digit generation itself beyond C14's magnitude bound (assumed through C14's contract here)"],
